@@ -226,9 +226,15 @@ def pred_extract(ctx, viol, raw, zc, zstart, pc, out, raised, origin):
         return
     z = out[:, zc]
     if not np.all(np.diff(z) > 0):
-        i = int(np.nonzero(~(np.diff(z) > 0))[0][0])
-        viol('extract-profile-keeps-reversed-row', 'depths returned by extract_profile are not strictly increasing (a sample of the up-cast is kept)',
-             dict(small, returned_depths_around=z[max(0, i - 2):i + 3].tolist(), position=i + 1, returned_levels=int(len(z))), full)
+        pos = np.nonzero(~(np.diff(z) > 0))[0]
+        i = int(pos[0])
+        if len(pos) == 1 and i == len(z) - 2:
+            # the recorded finding: exactly the LAST returned row is a sample of the up-cast
+            viol('extract-profile-keeps-reversed-row', 'depths returned by extract_profile are not strictly increasing: the last returned row is a sample of the up-cast',
+                 dict(small, returned_depths_around=z[max(0, i - 2):i + 3].tolist(), position=i + 1, returned_levels=int(len(z))), full)
+        else:
+            viol('extract-profile-not-monotone', 'depths returned by extract_profile are not strictly increasing (other than at the last row)',
+                 dict(small, returned_depths_around=z[max(0, i - 2):i + 3].tolist(), positions=[int(x) + 1 for x in pos[:5]], returned_levels=int(len(z))), full)
     if out.shape[0] > 1 and z[0] == 0.0 and not any(same(out[0], r) for r in raw):
         # synthetic surface row: depth 0, atmospheric pressure, everything else copied from the next row
         want = out[1].copy()
@@ -521,8 +527,10 @@ def raw_record_profile(ctx, rng, viol, cast, origin):
     ctx.count('pred:raw-record-profile')
     z = np.array(p.interp_data[:, 0])
     if not np.all(np.diff(z) > 0):
-        i = int(np.nonzero(~(np.diff(z) > 0))[0][0])
-        viol('extract-profile-keeps-reversed-row', 'depths returned by extract_profile are not strictly increasing (a sample of the up-cast is kept)',
+        pos = np.nonzero(~(np.diff(z) > 0))[0]
+        i = int(pos[0])
+        viol('extract-profile-keeps-reversed-row' if (len(pos) == 1 and i == len(z) - 2) else 'profile-depths-not-increasing',
+             'stored depths of a profile built from extract_profile output are not strictly increasing: the last row is a sample of the up-cast',
              {'function': 'ambient.extract_profile -> ambient.Profile', 'stored_depths_around': z[max(0, i - 2):i + 3].tolist(),
               'position': i + 1, 'origin': dict(origin, record=rdesc)}, lambda: {'data': tab(raw)})
 
